@@ -201,6 +201,41 @@ def test_unroll_for_break_else_and_dict_builds():
     b = astq.dict_builds(fn, fn.body[-1].value)
     assert len(b) == 1 and ast.unparse(b[0].key) == "h.name" and ast.unparse(b[0].gen.iter) == "zip(out.heads, out.layers)"
 
+def test_path_returns_and_reshape_axis_names():
+    """core.astq.path_returns over guard clauses; props._reshape axis-name table (positive example for a rule whose expected
+    number of findings on the repository is zero)."""
+    from sa.core import astq
+    from sa.core.program import norm
+    from sa.props import _reshape
+
+    f = _fn("""
+    def f(image, pts, scale=1.0):
+        if scale == 1.0:
+            return image, pts
+        h, w = image.shape[-2:]
+        out = resize(image, size=[int(h * scale), int(w * scale)])
+        return out, pts * scale
+    """, normalise=False)
+    pr = astq.path_returns(f)
+    assert pr is not None and len(pr) == 2, pr
+    (c0, v0), (c1, v1) = pr
+    assert c0[0][1] is True and norm(v0) == "(image, pts)", norm(v0)
+    assert c1[0][1] is False and "image.shape[-2:][0] * scale" in norm(v1) and norm(v1).endswith("pts * scale)"), norm(v1)
+    g = _fn("""
+    def g(points, xv, yv):
+        samples, n_inst, n_nodes, _ = points.shape
+        flat = points.reshape(samples, n_inst * n_nodes, 2)
+        cms = make(flat, xv, yv)
+        return cms.reshape(samples, n_nodes, n_inst, len(yv), len(xv)).amax(dim=2)
+    """, normalise=False)
+    ax = _reshape._axis_names(g)
+    assert ax["n_inst"] == ("points", 1) and ax["n_nodes"] == ("points", 2), ax
+    calls = [c for c in ast.walk(g) if isinstance(c, ast.Call) and _reshape._shape_args(c)]
+    assert len(calls) == 2
+    dims = [[norm(d) for d in _reshape._shape_args(c)] for c in calls]
+    assert ["samples", "n_inst * n_nodes", "2"] in dims and any(d[1:3] == ["n_nodes", "n_inst"] for d in dims), dims
+
+
 def main():
     tests = [v for k, v in sorted(globals().items()) if k.startswith("test_")]
     # engine tests registered by engine modules
